@@ -116,6 +116,7 @@ class Executor:
         self.messages = messages
         self.loose = loose
         self.written = {}
+        self._intr = None
         self.bb = zygote.import_blackbird()
         self.trace_files = zygote.hand_written_files()
 
@@ -189,6 +190,7 @@ class Executor:
         elif fault.get("kind") == "count":
             intr = Interrupt(self.trace_files, at=None)
         try:
+            self._intr = intr
             if intr is not None:
                 with intr:
                     res = fn(st)
@@ -240,7 +242,10 @@ class Executor:
             intr = Interrupt(self.trace_files, at=None)
         prog = None
         iof = IOFaults(self.root, io_d, self.scratch)
+        import gc
         try:
+            if getattr(self, "gc_in_loads_only", False):
+                gc.enable()
             with iof:
                 if intr is not None:
                     with intr:
@@ -253,8 +258,20 @@ class Executor:
                 raise
             ev["ok"] = False
             ev["res"] = D.render_exception(e, self.root, self.messages)
+            if st.get("hold_exc"):
+                # what a caller does who keeps the exception around (pytest's excinfo, a
+                # notebook's last traceback): the exception, its traceback and every frame
+                # and generator hanging off it become cyclic garbage, finalised whenever
+                # the collector next runs - possibly in the middle of a later load
+                cell = [e, sys.exc_info()]
+                cell.append(cell)
+                del cell
         finally:
             sys.settrace(None)
+            if getattr(self, "gc_in_loads_only", False):
+                gc.disable()
+        if iof.harness_error:
+            raise RuntimeError(iof.harness_error)        # -> harness error in the parent
         ev["opens"] = iof.opens
         ev["fired"] = bool(iof.fired or (intr is not None and intr.fired))
         if intr is not None:
@@ -278,6 +295,22 @@ class Executor:
                 pass
         return ev
 
+    def quiet(self):
+        """Context in which the harness's own rendering is not traced (an injected
+        interruption belongs into the operation under test, not into the observation)."""
+        ex = self
+
+        class _Q:
+            def __enter__(self_):
+                self_.prev = sys.gettrace()
+                sys.settrace(None)
+
+            def __exit__(self_, *a):
+                if self_.prev is not None and getattr(ex, "_intr", None) is not None and not ex._intr.fired:
+                    sys.settrace(self_.prev)
+                return False
+        return _Q()
+
     # read-only API operations on earlier results ---------------------------
     def _get(self, oid):
         if oid not in self.objs:
@@ -285,8 +318,10 @@ class Executor:
         return self.objs[oid]
 
     def op_dumps(self, st):
-        r = ["text", D.normalise_message(self.bb.dumps(self._get(st["obj"])), self.root)]
-        return {"sha": D.sha(r), "text": r[1][:300]}
+        text = self.bb.dumps(self._get(st["obj"]))
+        with self.quiet():
+            r = ["text", D.normalise_message(text, self.root)]
+            return {"sha": D.sha(r), "text": r[1][:300]}
 
     def op_call(self, st):
         import numpy as np
@@ -299,10 +334,11 @@ class Executor:
             else:
                 kwargs[k] = v
         new = self._get(st["obj"])(**kwargs)
-        if st.get("out"):
-            self.objs[st["out"]] = new
-            self.kinds[st["out"]] = "program"
-        return D.render_program(new, self.root, self.loose)
+        with self.quiet():
+            if st.get("out"):
+                self.objs[st["out"]] = new
+                self.kinds[st["out"]] = "program"
+            return D.render_program(new, self.root, self.loose)
 
     def _decode(self, v):
         import numpy as np
@@ -365,10 +401,11 @@ class Executor:
     def op_match(self, st):
         from blackbird.utils import match_template
         m = match_template(self._get(st["t"]), self._get(st["p"]))
-        if st.get("out"):
-            self.objs[st["out"]] = m
-            self.kinds[st["out"]] = "match"
-        return D.render(m, self.root, self.loose)
+        with self.quiet():
+            if st.get("out"):
+                self.objs[st["out"]] = m
+                self.kinds[st["out"]] = "match"
+            return D.render(m, self.root, self.loose)
 
     def op_attrs(self, st):
         p = self._get(st["obj"])
@@ -440,6 +477,13 @@ class Executor:
             ops.append({"op": "Zgate", "args": [how.get("v", 0.25)], "kwargs": {}, "modes": [how.get("m", 0)]})
         elif kind == "op_del" and ops:
             del ops[n % len(ops)]
+        elif kind == "op_append_badarray":
+            # an argument the serialiser refuses (boolean / one-dimensional array): the next
+            # dumps raises part-way through the operation list
+            bad = np.array([[True, False]]) if n % 2 == 0 else np.array([1.0, 2.0])
+            ops.append({"op": "Interferometer", "args": [bad], "kwargs": {}, "modes": [0]})
+        elif kind == "op_pop" and ops:
+            ops.pop()
         elif kind == "op_replace" and ops:
             ops[n % len(ops)] = {"op": "Rgate", "args": [how.get("v", 0.5)], "kwargs": {}, "modes": [0]}
         elif kind == "op_rename" and ops:
@@ -493,15 +537,27 @@ class Executor:
 
 
 def run_plan(plan, root, scratch, mode="history", only=None, observe="all",
-             messages=True, loose=False):
+             messages=True, loose=False, gc_threshold=None, gc_in_loads_only=False):
     """Execute plan; return list of events.
 
     mode 'history': every step.  mode 'pristine': environment steps before index
     `only`, then step `only` alone."""
+    if gc_threshold or gc_in_loads_only:
+        import gc
+        gc.collect()                 # counters start from zero in every child, wherever it was forked
+        if gc_threshold:
+            gc.set_threshold(int(gc_threshold), 5, 5)
     reset_root(root)
     private_env(scratch)
     os.chdir(root)
     ex = Executor(root, scratch, observe=observe, messages=messages, loose=loose)
+    ex.gc_in_loads_only = bool(gc_in_loads_only)
+    if gc_in_loads_only:
+        # the cycle collector runs only while the package under test is running: garbage a
+        # caller is still holding when it starts the next load is finalised inside that load
+        # (a program that allocates little between two loads behaves like this)
+        import gc
+        gc.disable()
     events = []
     for i, st in enumerate(plan):
         if mode == "pristine":
